@@ -6,12 +6,13 @@ import Driver.C05
 import Driver.C18
 import Driver.C17
 import Driver.C20
+import Driver.MocSet
 
 open Drv
 
 def step (line : String) : String :=
   let toks := (line.trimAscii.toString.splitOn " ").filter (· ≠ "")
-  match (stepC01 toks <|> stepExpr toks <|> stepC03 toks <|> stepC06 toks <|> stepC05 toks <|> stepC18 toks <|> stepC17 toks <|> stepC20 toks) with
+  match (stepC01 toks <|> stepExpr toks <|> stepC03 toks <|> stepC06 toks <|> stepC05 toks <|> stepC18 toks <|> stepC17 toks <|> stepC20 toks <|> stepMocSet toks) with
   | some out => out
   | none => "bad-op"
 
